@@ -43,3 +43,13 @@ claim("C18",
  "Static, for every conc block and interleaving: decides in ConcStatement.Evaluate the Add/Done/Wait pairing with symbolic count agreement over the four child slices (exhaustive over the struct's slice fields), one worker per goroutine on a per-iteration copy, Done after the work and once, Wait on every path to any return or read of the error list, every worker error tested and appended under the mutex and surfaced after the join; that Statement.Evaluate runs the block synchronously; that every access to a map[string]reflect.Value (local store, injected table) is in package context under the matching mutex; that the listener attaches every child. Right level: 'the next statement sees everything' follows from the join shape under the Go memory model for all schedules.",
  "Trusted: go/types + go/ssa, sync contracts. Effects of the child statements themselves are C02/C03.",
  "fork/join analysis (A4) with symbolic length sums, lockset analysis (A5) of the two stores, over go/ssa")
+
+claim("C06",
+ "Static, for every interleaving of pool requests: decides the ownership hand-over that isolates requests (exclusive pop of a non-empty free list under the list lock and the exclusive outer lock; who may touch the lists / allocate wrappers), the request lifecycle template over all 24 pool execute methods (deferred clean-up registered right after the acquire, deleting exactly this request's keys from the wrapper's own data context before putting the same wrapper back once; engine call on the acquired wrapper's engine and rule builder with no pool lock held; result map read from that engine after the call), one private data context per instance bound through gw.tag, a fresh result map per call written only by addResult, and that every rule runs against the data context of its own call. Right level: isolation follows from ownership, which is a who-may-access property of the code, for every schedule.",
+ "Trusted: go/types + go/ssa, sync contracts. Not decided: aliasing the host creates by injecting the same object into several requests.",
+ "typestate/ownership and template (sibling) cross-check over go/ssa, lockset analysis (A5), who-may-write analysis (A6)")
+
+claim("C17",
+ "Static, for all arrival orders and failing/panicking requests: decides conservation of wrappers (allocated only at construction, bijective tags, removed from a list only by the pop that hands them out), that every successful acquire is paired with a deferred put of the same wrapper exactly once on all exits including panics, that putGengineLocked appends exactly once to the list chosen by gw.addition under its lock, that no two callers can pop the same wrapper, and that getGengine never fails and holds no lock across a retry. Right level: a leak on an error path or a double hand-out is a missing/extra node on a CFG path.",
+ "Trusted: go/types + go/ssa, sync contracts, defer semantics. Not decided: fairness of the spin-wait, timing.",
+ "acquire/deferred-release pairing over the CFG (A10), may/must lockset analysis, who-may-allocate analysis, symbolic loop bounds, over go/ssa")
